@@ -4,6 +4,7 @@ import (
 	"fmt"
 	"go/ast"
 	"go/token"
+	"go/types"
 	"strings"
 )
 
@@ -28,9 +29,15 @@ func c01lowerBound(fn *Func, e ast.Expr) int64 {
 	}
 	switch x := e.(type) {
 	case *ast.Ident:
-		switch x.Name {
-		case "nshard":
-			return 1
+		// axiom: the shard count handed to a constructor is >= 1 (first parameter
+		// of the exported constructor enclosing this function)
+		if o, ok := fn.Pkg.Info.Uses[x].(*types.Var); ok {
+			root := fn.Root()
+			if root.Decl != nil && root.Decl.Name.IsExported() && root.Type.Params != nil && len(root.Type.Params.List) > 0 && len(root.Type.Params.List[0].Names) > 0 {
+				if fn.Pkg.Info.Defs[root.Type.Params.List[0].Names[0]] == types.Object(o) && expr(root.Type.Params.List[0].Type) == "int" {
+					return 1
+				}
+			}
 		}
 		return 0
 	case *ast.BinaryExpr:
@@ -334,10 +341,19 @@ func c01r2(c *RC) {
 			}
 			// the callback's error replaces err only when the read itself had none
 			okMask := false
+			werrVar := "werr"
+			inspectNoLit(fn.Body, func(n ast.Node) bool {
+				if a, ok := n.(*ast.AssignStmt); ok && len(a.Rhs) == 1 && len(a.Lhs) == 1 {
+					if k, ok := a.Rhs[0].(*ast.CallExpr); ok && fn.Pkg.CalleeName(k) == ".(*writerFuncReader).callWrite" {
+						werrVar = expr(a.Lhs[0])
+					}
+				}
+				return true
+			})
 			ast.Inspect(fn.Body, func(n ast.Node) bool {
 				if ifs, ok := n.(*ast.IfStmt); ok {
 					t := strings.ReplaceAll(expr(ifs.Cond), " ", "")
-					if strings.HasPrefix(t, "werr!=nil&&(") && strings.Contains(t, errVar+"==nil") && strings.Contains(t, errVar+"==sliceio.EOF") {
+					if strings.HasPrefix(t, werrVar+"!=nil&&(") && strings.Contains(t, errVar+"==nil") && strings.Contains(t, errVar+"==sliceio.EOF") {
 						okMask = true
 					}
 				}
@@ -360,9 +376,28 @@ func c01r2(c *RC) {
 	if cw := c.MustFn(".(*writerFuncReader).callWrite"); cw != nil {
 		okOrder := false
 		txt := nodeSrc(pr, cw.Body)
-		i1 := strings.Index(txt, "reflect.ValueOf(r.shard), r.state")
-		i2 := strings.Index(txt, "append(args, errArg)")
-		i3 := strings.Index(txt, "append(args, frame.Values()...)")
+		rv := recvOf(cw)
+		// the three appends, in source order: (shard, state) literal, the error, the columns
+		i1 := strings.Index(txt, "reflect.ValueOf("+rv+".shard), "+rv+".state")
+		i2, i3 := -1, -1
+		ast.Inspect(cw.Body, func(n ast.Node) bool {
+			a, ok := n.(*ast.AssignStmt)
+			if !ok || len(a.Rhs) != 1 {
+				return true
+			}
+			k, ok := a.Rhs[0].(*ast.CallExpr)
+			if !ok || expr(k.Fun) != "append" || len(k.Args) != 2 {
+				return true
+			}
+			off := pr.Fset.Position(a.Pos()).Offset - pr.Fset.Position(cw.Body.Pos()).Offset
+			if tv := cw.Pkg.Info.Types[k.Args[1]]; tv.Type != nil && typeString(tv.Type) == "reflect.Value" && !k.Ellipsis.IsValid() {
+				i2 = off
+			}
+			if k.Ellipsis.IsValid() && strings.HasSuffix(expr(k.Args[1]), ".Values()") {
+				i3 = off
+			}
+			return true
+		})
 		if i1 >= 0 && i2 > i1 && i3 > i2 {
 			okOrder = true
 		}
@@ -378,7 +413,7 @@ func c01r2(c *RC) {
 				ncall++
 				if len(call.Args) == 2 && strings.HasSuffix(expr(call.Args[0]), ".shard") {
 					for _, k := range callsIn(call.Args[1]) {
-						if sr.Pkg.CalleeName(k) == "sliceio.NewScanner" && len(k.Args) == 2 && strings.Contains(expr(k.Args[1]), "s.reader") {
+						if sr.Pkg.CalleeName(k) == "sliceio.NewScanner" && len(k.Args) == 2 && strings.Contains(expr(k.Args[1]), recvOf(sr)+".reader") {
 							okArgs = true
 						}
 					}
@@ -387,10 +422,22 @@ func c01r2(c *RC) {
 		}
 		c.Check(ncall == 1 && okArgs, fq+"|callback-once-with-whole-reader", pr.Pos(sr.Body.Pos()), "the scan callback is no longer invoked exactly once with the shard number and a scanner over the whole dependency reader")
 		okEOF := false
+		// the variable holding the callback's result
+		cbErr := "err"
+		inspectNoLit(sr.Body, func(n ast.Node) bool {
+			if a, ok := n.(*ast.AssignStmt); ok && len(a.Rhs) == 1 && len(a.Lhs) == 1 {
+				if k, ok := a.Rhs[0].(*ast.CallExpr); ok {
+					if sel, ok := k.Fun.(*ast.SelectorExpr); ok && pr.fieldQName(sr.Pkg.FieldOf(sel)) == ".scanSlice.scan" {
+						cbErr = expr(a.Lhs[0])
+					}
+				}
+			}
+			return true
+		})
 		ast.Inspect(sr.Body, func(n ast.Node) bool {
-			if ifs, ok := n.(*ast.IfStmt); ok && strings.ReplaceAll(expr(ifs.Cond), " ", "") == "err==nil" {
+			if ifs, ok := n.(*ast.IfStmt); ok && strings.ReplaceAll(expr(ifs.Cond), " ", "") == cbErr+"==nil" {
 				for _, st := range ifs.Body.List {
-					if a, ok := st.(*ast.AssignStmt); ok && expr(a.Lhs[0]) == "err" && strings.HasSuffix(expr(a.Rhs[0]), "EOF") {
+					if a, ok := st.(*ast.AssignStmt); ok && expr(a.Lhs[0]) == cbErr && strings.HasSuffix(expr(a.Rhs[0]), "EOF") {
 						okEOF = true
 					}
 				}
